@@ -262,4 +262,5 @@ def shrink(c):
 
 
 def known_probes():
-    return []
+    from . import c01
+    return c01.known_probes()
